@@ -160,6 +160,9 @@ func (m *MonC01) OnEnd(w *World) []Violation {
 			}
 		}
 	}
+	if m.stateEvHeld > 0 {
+		m.class("state_event_while_held")
+	}
 	if m.stateEvHeld > 0 && (m.outOfOrder || m.refChange || m.derived || m.shared) {
 		m.nontriv = true
 	}
